@@ -26,7 +26,7 @@ MANIFEST = dict(
 def run(ctx):
     proved = vlib.prove(ctx)
     quick = ctx.tier == "quick"
-    nprog, maxlen = (600, 10) if quick else (12000, 30)
+    nprog, maxlen = (600, 10) if quick else (5000, 24)
     data = vlib.run_harness("c02.py", [ctx.seed, nprog, maxlen], timeout=3000)
     cases, meta = data["cases"], data["meta"]
     ctx.cov["rule"] = ("random programs (2..%d steps) over formula(string|atom|dict|nested|Formula), +, n*, +=, aliasing; atoms drawn "
